@@ -64,6 +64,11 @@ def cmd_check(prop, tier):
         t["tier"] = tier
     print(f"[{prop}] tier={tier} seed={seed} tasks={len(tasks)}", flush=True)
     agg = pool.run_tasks(name, drv, tasks)
+    if hasattr(drv, "post"):                      # cross-task comparisons (e.g. checked vs unchecked runs)
+        from mc.core import Ctx
+        pctx = Ctx(prop, name, tier)
+        drv.post(agg, pctx)
+        pool.merge_partial(agg, pctx.dump(), len(tasks))
 
     known = findings.load(prop)
     exit_code = 0
